@@ -459,6 +459,57 @@ def generate(unit_name, repo=None, extra_fn_hook=None, canary=False, findings=Fa
             elif kind in ("impl", "trait"):
                 header = ent.get("header")
                 flatten = ent.get("flatten_into")
+                if ent.get("as_free_fn"):
+                    # the body of `impl Drop for T { fn drop(&mut self) {..} }` becomes a free function taking `this: &mut T`
+                    # (N4 makes the implicit drop of the guard an explicit call of this function)
+                    it = cands[0]
+                    if len(cands) != 1 or len([c for c in it.children if c.kind == "fn"]) != 1:
+                        raise Unsupported("as_free_fn: %s must be a single impl with one fn" % key)
+                    fnit = [c for c in it.children if c.kind == "fn"][0]
+                    hdr = it.header()
+                    gm = re.match(r"\s*impl\s*(<[^>]*>)?\s*[A-Za-z_:]+\s+for\s+(.*)$", hdr.strip(), re.S)
+                    if not gm:
+                        raise Unsupported("as_free_fn: cannot parse impl header %r" % hdr)
+                    generics, selfty = gm.group(1) or "", gm.group(2).strip()
+                    raw = fnit.body()
+                    body, rules_log, nlog = normalise(raw)
+                    mb = mask(body)
+                    body = "".join(("this" if mm else None) or ch for ch, mm in zip(body, [False] * len(body)))
+                    body = re.sub(r"(?<![A-Za-z0-9_])self(?![A-Za-z0-9_])", "this", body)
+                    name = ent["as_free_fn"]
+                    c = specs.fns.get((file, key, fnit.name))
+                    fkey = "%s :: %s :: %s" % (file, key, fnit.name)
+                    info["functions"].append({"fn": fkey, "mode": "verify", "sha256": hashlib.sha256(raw.encode()).hexdigest(),
+                                              "rules_applied": rules_log + ["N4-drop"], "logging_stmts_dropped": nlog,
+                                              "trusted_reason": None, "degraded": [], "termination_unproved": False})
+                    out.add("// @fn %s [verify] (Drop::drop as the free function %s)" % (fkey, name))
+                    out.add("pub fn %s%s(this: &mut %s)" % (name, generics, selfty), fn=fkey)
+                    if c:
+                        if c.requires:
+                            out.add("    requires", fn=fkey)
+                            for cl in c.requires:
+                                out.add("        %s," % cl.text, fn=fkey, labels=cl.labels, kind="requires", clause=cl.text)
+                        if c.ensures:
+                            out.add("    ensures", fn=fkey)
+                            for cl in c.ensures:
+                                out.add("        %s," % cl.text, fn=fkey, labels=cl.labels, kind="ensures", clause=cl.text)
+                    if canary:
+                        if not (c and c.ensures):
+                            out.add("    ensures", fn=fkey)
+                        info["canary_n"] = info.get("canary_n", 0) + 1
+                        out.add("        !verif_canary_flag(%d)," % info["canary_n"], fn=fkey, labels=["CANARY"], kind="ensures", clause="false")
+                    out.add("{", fn=fkey)
+                    out.add(body, fn=fkey, body=True)
+                    out.add("}", fn=fkey)
+                    out.add("")
+                    continue
+                if ent.get("check_deref_reducer"):
+                    it = cands[0]
+                    fnit = [c for c in it.children if c.kind == "fn"][0]
+                    if re.sub(r"\s+", "", fnit.body()) != "self.reducer":
+                        raise Unsupported("N4: DerefMut::deref_mut of the guard is not exactly `self.reducer`")
+                    info.setdefault("item_rules", []).append({"item": "%s :: %s" % (file, key), "rule": "N4-deref-checked"})
+                    continue
                 if flatten:
                     # N11: a trait whose ONLY impl in the crate is `impl Trait for T {}` (empty) is flattened into
                     # inherent methods of T (`Self::f` resolves to the same bodies).  Both conditions are checked.
